@@ -236,6 +236,8 @@ def _b_isinstance(interp, args, kw, st, node):
         if tag == "ext":
             kinds = TYPE_KINDS.get(n)
             if kinds is not None:
+                if n in ("int", "float") and x.kind == n and "numpy-scalar" in x.labels and n == "int":
+                    continue  # a numpy integer (np.int64, ...) is numbers.Integral but not a builtin int
                 if x.kind in kinds or (x.kind == "bool" and "int" in kinds and n == "numbers.Integral"):
                     res = True
                 elif x.kind in ("unk",) or (x.kind == "arr" and x.shape == () and kinds[0] in ("int", "float")):
